@@ -374,3 +374,29 @@ fn opscan_replay() {
         println!("OBSERVED: a function compiled before a redefinition assigns (set!) into a global slot that was recycled for later definitions: {}", bad.join(", "));
     }
 }
+
+// Native replay for the equality arm-table check (C11, E3g): VERIF_EQ_EXPR is an expression of the kind the solver
+// named; two separately built equal values of that kind must be equal? on their own AND inside a list / a vector /
+// a pair.
+#[test]
+fn eqtab_replay() {
+    let x = std::env::var("VERIF_EQ_EXPR").expect("VERIF_EQ_EXPR");
+    let mut engine = Engine::new();
+    let mut eval = |src: String| -> Result<String, String> {
+        engine.run(src).map(|vals| vals.last().map(|v| v.to_string()).unwrap_or_default()).map_err(|e| e.to_string())
+    };
+    let top = eval(format!("(equal? {} {})", x, x));
+    let forms = [("list", format!("(equal? (list {} 1) (list {} 1))", x, x)), ("vector", format!("(equal? (immutable-vector {}) (immutable-vector {}))", x, x)), ("pair", format!("(equal? (cons 1 {}) (cons 1 {}))", x, x))];
+    let mut bad = Vec::new();
+    for (name, src) in forms.iter() {
+        let r = eval(src.clone());
+        if r != top {
+            bad.push(format!("inside a {}: {:?}", name, r));
+        }
+    }
+    if top == Ok("#true".to_string()) && !bad.is_empty() {
+        println!("OBSERVED: (equal? {} {}) is #true but the same two values are not equal? {}", x, x, bad.join(", "));
+    } else {
+        println!("COMPLETED: top level {:?}, nested agrees: {}", top, bad.is_empty());
+    }
+}
